@@ -168,11 +168,24 @@ func (b *exampleBuilder) buildExampleForMixedValueNode(node *ischema.MixedValueN
 		return nil, errs.ErrLoader.F()
 	}
 
-	typeName := tt[0]
-	if !bytes.NewBytes(typeName).IsUserTypeName() {
+	if !bytes.NewBytes(tt[0]).IsUserTypeName() {
 		return node.Value().Data(), nil
 	}
 
+	// The first alternative of `@a | @b` that has an example is used. Normally that
+	// is the first one; when it is cut off as a recursion (@a: "@b | @c", @b: "@a")
+	// the next alternative is tried instead of leaving the value out - at the root
+	// that gave an empty, non-JSON example, in an object a missing required key.
+	for _, typeName := range tt {
+		ex, err := b.buildExampleForUserType(typeName)
+		if err != nil || ex != nil {
+			return ex, err
+		}
+	}
+	return nil, nil
+}
+
+func (b *exampleBuilder) buildExampleForUserType(typeName string) ([]byte, error) {
 	if cnt := b.processedTypes[typeName]; cnt > 1 {
 		// Do not process already processed type more than twice.
 		return nil, nil
